@@ -9,7 +9,9 @@ Import ListNotations.
 Section Colloc.
 Context {F : Type} {OF : Ops F}.
 
-(* collocation_coeff(tau): nodes [0]+tau; C[r][j] = l_r'(tau_j), D[r] = l_r(1), B[j] = int_0^1 l_j *)
+(* collocation_coeff(tau): nodes [0]+tau; C[r][j] = l_r'(tau_j), D[r] = l_r(1).
+   B[j] = int_0^1 of the j-th Lagrange polynomial on the collocation points alone (the interpolatory
+   quadrature rule on tau; direct_collocation.py:59-63) *)
 Definition tau_root (tau : list F) : list F := o0 :: tau.
 Definition coeff_C (tau : list F) : list (list F) :=      (* rows r = 0..d, columns j = 0..d-1 *)
   map (fun r => map (fun tj => polyval (pderiv (lagrange (tau_root tau) r)) tj) tau)
@@ -17,7 +19,7 @@ Definition coeff_C (tau : list F) : list (list F) :=      (* rows r = 0..d, colu
 Definition coeff_D (tau : list F) : list F :=
   map (fun r => polyval (lagrange (tau_root tau) r) o1) (seq 0 (S (length tau))).
 Definition coeff_B (tau : list F) : list F :=
-  map (fun j => pint01 (lagrange (tau_root tau) (S j))) (seq 0 (length tau)).
+  map (fun j => pint01 (lagrange tau j)) (seq 0 (length tau)).
 (* the polynomial through the algebraic values lives on the collocation points only *)
 Definition wz_at0 (tau : list F) : list F := map (fun j => nth 0 (lagrange tau j) o0) (seq 0 (length tau)).
 Definition wz_at1 (tau : list F) : list F := map (fun j => polyval (lagrange tau j) o1) (seq 0 (length tau)).
